@@ -5,6 +5,7 @@ import subprocess
 from vfchecks import CHECKS, MANIFEST_TEXT
 
 ALL = ["C%02d" % i for i in range(1, 21)]
+IN_PROGRESS = {'C10', 'C14', 'C15', 'C19'}  # configs exist but the builder has not delivered yet
 
 def hook_commits():
     try:
@@ -32,7 +33,7 @@ m = {
     "notes": "All checks: python3 check.py <ID> --tier quick|thorough; replay: python3 check.py <ID> --replay <file>. See DESIGN.md.",
 }
 for pid in ALL:
-    if pid not in CHECKS:
+    if pid not in CHECKS or pid in IN_PROGRESS:
         m["not_applicable"].append({"property_id": pid, "reason": "check not built yet at this commit (work in progress; the design claims it, see DESIGN.md section 5)"})
         continue
     t = MANIFEST_TEXT[pid]
